@@ -29,18 +29,29 @@ pub mod clock {
         unsafe { NOW_S = s }
     }
     #[cfg(verif_replay)]
-    extern "C" {
-        fn verif_set_clock(s: i64);
-    }
-    #[cfg(verif_replay)]
     pub fn set(s: u64) {
         unsafe {
             NOW_S = s;
-            verif_set_clock(s as i64);
+            let f: extern "C" fn(i64) = std::mem::transmute(super::shim::sym(b"verif_set_clock\0"));
+            f(s as i64);
         }
     }
     pub fn get() -> u64 {
         unsafe { NOW_S }
+    }
+}
+
+/// Native replay only: entry points of the LD_PRELOAD environment shim, resolved at run time
+/// (the shim is not a link-time dependency).
+#[cfg(verif_replay)]
+pub mod shim {
+    extern "C" {
+        fn dlsym(handle: *mut std::ffi::c_void, symbol: *const std::ffi::c_char) -> *mut std::ffi::c_void;
+    }
+    pub fn sym(name: &[u8]) -> *mut std::ffi::c_void {
+        let p = unsafe { dlsym(std::ptr::null_mut(), name.as_ptr() as *const std::ffi::c_char) };
+        assert!(!p.is_null(), "verif envshim is not preloaded (LD_PRELOAD)");
+        p
     }
 }
 
@@ -50,6 +61,16 @@ pub mod wall {
     pub fn system_time() -> u64 {
         unsafe { NOW_US }
     }
+    pub fn set(us: u64) {
+        unsafe {
+            NOW_US = us;
+            #[cfg(verif_replay)]
+            {
+                let f: extern "C" fn(u64) = std::mem::transmute(super::shim::sym(b"verif_set_wall\0"));
+                f(us);
+            }
+        }
+    }
 }
 
 pub mod rnd {
@@ -58,10 +79,6 @@ pub mod rnd {
     pub static mut BUF: [u8; 64] = [0; 64];
     pub static mut LEN: usize = 0;
     pub static mut POS: usize = 0;
-    #[cfg(verif_replay)]
-    extern "C" {
-        fn verif_push_rand(p: *const u8, n: usize);
-    }
     /// Queue `bytes` as the next values returned by `getrandom::fill`.
     pub fn preload(bytes: &[u8]) {
         let mut i = 0;
@@ -76,7 +93,8 @@ pub mod rnd {
         }
         #[cfg(verif_replay)]
         unsafe {
-            verif_push_rand(bytes.as_ptr(), bytes.len());
+            let f: extern "C" fn(*const u8, usize) = std::mem::transmute(super::shim::sym(b"verif_push_rand\0"));
+            f(bytes.as_ptr(), bytes.len());
         }
     }
     /// `getrandom::fill` stand-in: pops preloaded bytes; running dry is a flagged cut.
@@ -130,4 +148,156 @@ pub fn ref_crc32c(data: &[u8]) -> u32 {
         i += 1;
     }
     !crc
+}
+
+/// Signature oracle: replaces `<VerifyingKey as Verifier<Signature>>::verify`.
+/// Verdicts are drawn by the harness body (`oracle::arm`) before the code under test runs; every
+/// query is recorded so the harness can assert *what* was verified.  In native replay the real
+/// Ed25519 runs and `oracle::signature` realises the verdict with a real signature (valid) or a
+/// corrupted one (invalid) under the fixed seeds whose public keys are K1/K2.
+pub mod oracle {
+    use ed25519_dalek::{Signature, SignatureError, VerifyingKey};
+    /// public key of SigningKey::from_bytes(&[1; 32])
+    pub const K1: [u8; 32] = [
+        138, 136, 227, 221, 116, 9, 241, 149, 253, 82, 219, 45, 60, 186, 93, 114, 202, 103, 9, 191,
+        29, 148, 18, 27, 243, 116, 136, 1, 180, 15, 111, 92,
+    ];
+    /// public key of SigningKey::from_bytes(&[2; 32])
+    pub const K2: [u8; 32] = [
+        129, 57, 119, 14, 168, 125, 23, 95, 86, 163, 84, 102, 195, 76, 126, 204, 203, 141, 138,
+        145, 180, 238, 55, 162, 93, 246, 15, 91, 143, 201, 179, 148,
+    ];
+    pub const MAXQ: usize = 3;
+    pub const MAXMSG: usize = 64;
+    pub static mut VERDICT: [bool; MAXQ] = [false; MAXQ];
+    pub static mut ASKED: usize = 0;
+    pub static mut KEY: [[u8; 32]; MAXQ] = [[0; 32]; MAXQ];
+    pub static mut SIG: [[u8; 64]; MAXQ] = [[0; 64]; MAXQ];
+    pub static mut MSG: [[u8; MAXMSG]; MAXQ] = [[0; MAXMSG]; MAXQ];
+    pub static mut MSG_LEN: [usize; MAXQ] = [0; MAXQ];
+
+    /// fix the verdict of the i-th query
+    pub fn arm(i: usize, verdict: bool) {
+        unsafe { VERDICT[i] = verdict }
+    }
+    pub fn asked() -> usize {
+        unsafe { ASKED }
+    }
+    pub fn verify_stub(k: &VerifyingKey, msg: &[u8], sig: &Signature) -> Result<(), SignatureError> {
+        unsafe {
+            let i = ASKED;
+            if i >= MAXQ || msg.len() > MAXMSG {
+                super::cut();
+                return Err(SignatureError::new());
+            }
+            KEY[i] = *k.as_bytes();
+            SIG[i] = sig.to_bytes();
+            let mut j = 0;
+            while j < msg.len() {
+                MSG[i][j] = msg[j];
+                j += 1;
+            }
+            MSG_LEN[i] = msg.len();
+            ASKED += 1;
+            if VERDICT[i] { Ok(()) } else { Err(SignatureError::new()) }
+        }
+    }
+    /// true iff query i was about exactly (key, msg, sig)
+    pub fn was_about(i: usize, key: &[u8; 32], msg: &[u8], sig: &[u8; 64]) -> bool {
+        unsafe {
+            if i >= ASKED || MSG_LEN[i] != msg.len() {
+                return false;
+            }
+            let mut j = 0;
+            while j < msg.len() {
+                if MSG[i][j] != msg[j] {
+                    return false;
+                }
+                j += 1;
+            }
+            let mut j = 0;
+            while j < 32 {
+                if KEY[i][j] != key[j] {
+                    return false;
+                }
+                j += 1;
+            }
+            let mut j = 0;
+            while j < 64 {
+                if SIG[i][j] != sig[j] {
+                    return false;
+                }
+                j += 1;
+            }
+            true
+        }
+    }
+    /// The signature bytes a harness puts on the wire for oracle query `i` over `msg` under seed
+    /// `seed` (1 -> K1, 2 -> K2).  Under Kani: the symbolic bytes passed in.  In native replay:
+    /// a real signature when the verdict is "valid", a corrupted one otherwise.
+    #[cfg(not(verif_replay))]
+    pub fn signature(_i: usize, _seed: u8, _msg: &[u8], symbolic: [u8; 64]) -> [u8; 64] {
+        symbolic
+    }
+    #[cfg(verif_replay)]
+    pub fn signature(i: usize, seed: u8, msg: &[u8], _symbolic: [u8; 64]) -> [u8; 64] {
+        use ed25519_dalek::Signer;
+        let sk = ed25519_dalek::SigningKey::from_bytes(&[seed; 32]);
+        let mut s: [u8; 64] = sk.sign(msg).into();
+        if !unsafe { VERDICT[i] } {
+            s[5] ^= 0x40;
+        }
+        s
+    }
+}
+
+/// Uninterpreted hash `H` for composite obligations: a ghost table answering a repeated input
+/// with the recorded digest and a new input with the next pre-drawn digest.  No injectivity is
+/// assumed.  Inputs are identified by (length, first 4 bytes) -- harnesses using H keep inputs
+/// <= 4 bytes so this is exact.
+pub mod uf {
+    pub const SLOTS: usize = 3;
+    pub static mut SET: [bool; SLOTS] = [false; SLOTS];
+    pub static mut IN_LEN: [usize; SLOTS] = [0; SLOTS];
+    pub static mut IN: [[u8; 4]; SLOTS] = [[0; 4]; SLOTS];
+    pub static mut OUT: [[u8; 20]; SLOTS] = [[0; 20]; SLOTS];
+    /// pre-draw the digests (harness body)
+    pub fn arm(digests: [[u8; 20]; SLOTS]) {
+        unsafe { OUT = digests }
+    }
+    pub fn h(v: &[u8]) -> [u8; 20] {
+        if v.len() > 4 {
+            super::cut();
+            return [0; 20];
+        }
+        let mut key = [0u8; 4];
+        let mut j = 0;
+        while j < 4 {
+            if j < v.len() {
+                key[j] = v[j];
+            }
+            j += 1;
+        }
+        unsafe {
+            let mut i = 0;
+            while i < SLOTS {
+                if SET[i] && IN_LEN[i] == v.len() && IN[i] == key {
+                    return OUT[i];
+                }
+                i += 1;
+            }
+            let mut i = 0;
+            while i < SLOTS {
+                if !SET[i] {
+                    SET[i] = true;
+                    IN_LEN[i] = v.len();
+                    IN[i] = key;
+                    return OUT[i];
+                }
+                i += 1;
+            }
+        }
+        super::cut();
+        [0; 20]
+    }
 }
